@@ -147,6 +147,12 @@ func (e *env) enqueue(o op, expectTotal int64) {
 		if err := e.node.Kill(h); err != nil {
 			e.t.Fatalf("kill helper: %v", err)
 		}
+		// a helper that is still busy terminates in its own goroutine; the down notification is
+		// in the receiver's mailbox for certain once the helper's terminate callback has run
+		// (the queue length alone is incremented before the item is linked)
+		if !kit.WaitUntil(5*time.Second, func() bool { return e.probe.Terminated("helper", h) }) {
+			e.t.Fatalf("helper of item %d did not terminate", o.ID)
+		}
 	case kLog:
 		e.node.Log().Error("verif-log %d", o.ID)
 	}
